@@ -229,4 +229,6 @@ def run(ck):
     ck.run_rule("C15.table", "alphabet == DEC RADIX-50; encode_char indexes it", 41, rule_table)
     ck.run_rule("C15.pack", "pack_to_int = 1600*c1 + 40*c2 + c3 with space padding", 4, rule_pack)
     ck.run_rule("C15.rad50", ".rad50: weights, grouping, padding, case, unknown characters, <n> bound", 12, rule_rad50)
+    from ..rules import route
+    ck.run_rule("DIR.route", "'.rad50' as a statement (raw operand: pieces reach the handler unevaluated)", 2, route.rule_route, ("rad50",))
     ck.run_rule("C15.lit", "^R literal: alphabet regex, case, length guard", 3, rule_literal)
